@@ -46,6 +46,9 @@ func objOfSize(c, i, n int) (oid.Address, *object.Object, []byte) {
 		plen := n - minObjSize
 		for try := 0; try < 8 && plen >= 0; try++ {
 			o := uni.Build(spec(c, i, plen, p))
+			if i >= uni.NObjects {
+				o.SetID(extraID(i))
+			}
 			b := o.Marshal()
 			if len(b) == n {
 				return o.Address(), o, b
@@ -58,4 +61,14 @@ func objOfSize(c, i, n int) (oid.Address, *object.Object, []byte) {
 		}
 	}
 	panic(fmt.Sprintf("objOfSize: cannot build object of %d bytes", n))
+}
+
+// extraID returns object ID number i >= uni.NObjects outside the shared
+// universe. Every object ID is used with ONE container only: real object IDs
+// are hashes covering the container ID, and FSTree's combined (batch) file
+// format finds entries by object ID alone.
+func extraID(i int) oid.ID {
+	var id oid.ID
+	id[0], id[1], id[30], id[31] = 0xee, byte(i>>8), byte(i>>8), byte(i)
+	return id
 }
